@@ -111,6 +111,16 @@ CLAIMS = {
              "the environment variable set before the library is imported (own worker pool), and qualified as S.name with no default, for S "
              "fresh and S already used as a qualifier, plus no default at all; every observation is decided by Trace_Stmt with ds = S.",
         note="trusted: TLC, the renderer's qualify option; table level (column owners under a default schema belong to the column-level checks)"),
+    "C10": dict(
+        design="5/C10, 3.4",
+        technique="TLA+ model checking (TLC) of Pipeline.tla (failure classes, silent skip = removal) with every single-run behaviour replayed through the real runner + TLC trace validation: Trace_Pipeline for runs, Contract.tla for every execution on seeded mutated strings",
+        text="TLC checks OutcomeInContract and SilentSkipEqualsRemoval for every script of <= 4 statements (unparsable / unsupported at every "
+             "position, silent on/off, provider fault) and prints every single-run behaviour, which is replayed through the real LineageRunner "
+             "and decided by Trace_Pipeline. TLC does not generate arbitrary text: a seeded mutator (token delete/duplicate/swap/insert, "
+             "cross-over, bracket nesting <= 30, templating/quoting metacharacters, dialect-specific statements under other dialects) drives "
+             "the code with every public accessor called, and Contract.tla decides each recorded execution (no internal error escapes; "
+             "unparsable text never yields a result; invalid syntax only for text the parser rejects).",
+        note="trusted: TLC, sqlfluff called directly as the judge of 'cannot parse', the mutator; totality over all strings is sampled, not enumerated"),
 }
 
 NOT_YET = "check not built yet in this round; planned as described in DESIGN.md section 5"
